@@ -82,9 +82,11 @@ func checkPrecedence(t fataler, what string, res, winner, loser *sbom.Node) {
 		if got != want {
 			// a date that is present but all-zero (the Unix epoch) may or may not count as "non-empty": then either
 			// operand's value is admissible
-			if zeroTimestamp(winner.ProtoReflect(), fd) && got == hx.RefSetKey(loser.ProtoReflect(), fd, false) {
-				hx.Class("precedence:zero_timestamp_read_as_empty")
-				continue
+			if zeroTimestamp(winner.ProtoReflect(), fd) || zeroTimestamp(loser.ProtoReflect(), fd) {
+				if got == hx.RefSetKey(loser.ProtoReflect(), fd, false) || got == hx.RefSetKey(winner.ProtoReflect(), fd, false) || !res.ProtoReflect().Has(fd) {
+					hx.Class("precedence:zero_timestamp_read_as_empty")
+					continue
+				}
 			}
 			t.Fatalf("%s: node %q attribute %s = %s, want %s (winner %s, other %s)", what, res.Id, fd.Name(), got, want,
 				hx.RefFieldKey(winner.ProtoReflect(), fd, false), hx.RefFieldKey(loser.ProtoReflect(), fd, false))
